@@ -290,6 +290,10 @@ def run_transcription(case, R):
     if case['rs'][-1] % 4 == 0:
         # the same tie-free mask at a tiny scale (exact power of two; products of two entries stay normal numbers of the dtype)
         mask = mask * 2.0 ** -int(rng.integers(40, 80) if not single else rng.integers(10, 20))
+    elif case['rs'][-1] % 7 == 1:
+        mask = rng.standard_normal((K, F, T))                       # "all real masks": entries of both signs (centred features)
+    elif case['rs'][-1] % 7 == 2:
+        mask = mask * (1e9 if not single else 1e4)                   # large magnitudes (un-normalised power-like features)
     if single:
         mask = mask.astype(np.float32)
     before = mask.copy()
